@@ -77,7 +77,7 @@ CHECKS = {
  "C02": dict(
   level="exploration", design="6/C02", engine="sse-product",
   technique="bounded exhaustive differential exploration: every word over {ND,lo,mid,hi} (len 4..7/8) x 6 placeholder encodings x 8 smoother variants x parameter grid, compared bit-exactly across encodings; gap-fill via self-consistency with the fixed-lambda smoother and the C03 reference",
-  text="All 21760 (87296) words, 40 variant/parameter points, seven encodings of the missing cells (nodata below / inside / above the data, 0, NaN, +inf, -inf), kernels and accessors (also nodata=0 against a conflicting attribute); the fourth difference of every band must vanish at missing cells; complete inside the bound. Gaps of one series marked in two ways at once (marker and NaN / +inf alternately).",
+  text="Missing cells also declared by their own value (nodata argument NaN / +inf / -inf) for the fixed-lambda and GCV kernels. All 21760 (87296) words, 40 variant/parameter points, seven encodings of the missing cells (nodata below / inside / above the data, 0, NaN, +inf, -inf), kernels and accessors (also nodata=0 against a conflicting attribute); the fourth difference of every band must vanish at missing cells; complete inside the bound. Gaps of one series marked in two ways at once (marker and NaN / +inf alternately).",
   note="Bit-exact equality across encodings is demanded (zero weight annihilates the placeholder exactly). Bound: length <= 7/8, three data letters."),
  "C03": dict(
   level="exploration", design="6/C03", engine="sse-product",
@@ -92,7 +92,7 @@ CHECKS = {
  "C05": dict(
   level="exploration", design="6/C05", engine="sse-product",
   technique="bounded exhaustive enumeration of words (>=5 valid), flat-with-spikes {0,5,50}^8, constants and lines with all gap patterns x sranges x robust x p; GCV arg-min under two trace definitions with error bounds; robust mode checked on what the statement fixes",
-  text="Non-robust: grid membership, arg-min admissibility, band = fixed smoother at lopt. Robust: grid membership, lines/constants reproduced, band straddles the data (sum w(y-z)=0 necessary condition), sanity bound. All variants: optimality (KKT) conditions of a weighted Whittaker curve at the reported lambda; long series n=50..200; accessor defaults incl. p=0.5. Argument spellings (srange dtypes and views, robust as np.bool_, defaults spelled out). Level shifts of every word with gaps through both robust kernels.",
+  text="Robust mode: every word with a gap under twelve encodings of the missing cells (finite below / inside / above, zero, NaN, +-inf, mixed, self-declared NaN / inf) gives the same band and lambda. Non-robust: grid membership, arg-min admissibility, band = fixed smoother at lopt. Robust: grid membership, lines/constants reproduced, band straddles the data (sum w(y-z)=0 necessary condition), sanity bound. All variants: optimality (KKT) conditions of a weighted Whittaker curve at the reported lambda; long series n=50..200; accessor defaults incl. p=0.5. Argument spellings (srange dtypes and views, robust as np.bool_, defaults spelled out). Level shifts of every word with gaps through both robust kernels.",
   note="Robust constants (4.685, 1.4826, passes) are not pinned; placeholder invariance of robust mode is decided in C02."),
  "C06": dict(
   level="exploration", design="6/C06", engine="sse-product",
